@@ -373,14 +373,9 @@ impl Mon {
         }
     }
 
+    /// The group whose roles decide: the group the touched bank / account belongs to (not whichever
+    /// group account the caller chose to present), else the group account presented.
     fn group_for(&self, v: &IxView, info: &IxInfo) -> Option<MarginfiGroup> {
-        for s in v.ev.pre.iter() {
-            if s.owner == MFI {
-                if let Some(g) = group_of(&s.data) {
-                    return Some(g);
-                }
-            }
-        }
         for (_, p, q) in &info.banks {
             if let Some(b) = p.as_ref().or(q.as_ref()) {
                 if let Some(g) = v.pre(&b.group).and_then(group_of) {
@@ -391,6 +386,13 @@ impl Mon {
         for (_, p, q) in &info.accts {
             if let Some(a) = p.as_ref().or(q.as_ref()) {
                 if let Some(g) = v.pre(&a.group).and_then(group_of) {
+                    return Some(g);
+                }
+            }
+        }
+        for s in v.ev.pre.iter() {
+            if s.owner == MFI {
+                if let Some(g) = group_of(&s.data) {
                     return Some(g);
                 }
             }
@@ -850,8 +852,20 @@ impl Mon {
                 None => continue,
             };
             let k = w.banks[bi].k;
-            let g = v.pre(&pre.group).and_then(group_of);
+            // the bank's own group, whether or not the caller presented it
+            let g = v.pre(&pre.group).and_then(group_of).or_else(|| w.shadow.get(&pre.group).and_then(|a| group_of(&a.data)));
             let admin_signed = g.as_ref().map(|g| info.signers.contains(&g.admin)).unwrap_or(false);
+            if info.kind == Kind::UpdateFeesDestination {
+                if let Some(post) = _post {
+                    if post.fees_destination_account != pre.fees_destination_account {
+                        self.r.eval();
+                        self.r.count("C19.fees_destination_changes");
+                        if !admin_signed {
+                            self.r.violate("C19", "C19/UpdateFeesDestination/destination-of-permissionless-fee-withdrawals-changed-without-the-bank's-group-admin", format!("bank {}: {} -> {} signers {:?}", bk, pre.fees_destination_account, post.fees_destination_account, info.signers));
+                        }
+                    }
+                }
+            }
             for (name, vault) in [("fee", k.fv), ("insurance", k.iv)] {
                 if let (Some(a), Some(b)) = (v.pre(&vault).and_then(token_amount), v.post(&vault).and_then(token_amount)) {
                     if b < a {
